@@ -51,7 +51,7 @@ META = {
     ),
     "C06": dict(
         engine="E3 tcp",
-        technique="Lean 4 theorems on the handler model with logical close classes (probe silent, reads everything, close class depends only on whether the client half-closed, post-auth invalid streams closed only after the client's FIN); differential correspondence with the real handler (250-450 ms timeouts, close time from AddClosed, FIN vs RST)",
+        technique="Lean 4 theorems on the handler model with logical close classes (probe silent, reads everything, close class depends only on whether the client half-closed, post-auth invalid streams closed only after the client's FIN); differential correspondence with the real handler (250-450 ms timeouts, close time from AddClosed, FIN vs RST); drainErrToString is TRANSLATED from the Go source into Lean on every run and proved to yield exactly the three drain results",
         text="Kernel-checked on the handler state machine: a non-authenticating connection writes nothing, dials nothing, is read completely and is closed at the client's FIN or at the deadline regardless of content/length/key list/replay-cache state; authenticated streams that turn invalid are closed only after the client's FIN.",
         note="Partial for FIN-vs-RST and wall-clock timing (kernel), observed with +-150 ms tolerance. Trusted: Lean kernel, hand model validated on ~450 scripted connections per quick run.",
     ),
@@ -105,7 +105,7 @@ META = {
     ),
     "C03": dict(
         engine="E4 udp",
-        technique="Lean 4 theorems on the packet-handler model (decision logic of Handle/validatePacket, in-place buffer arithmetic of timedCopy by omega); model tied by differential correspondence with the real handler over real sockets",
+        technique="Lean 4 theorems on the packet-handler model (decision logic of Handle/validatePacket, in-place buffer arithmetic of timedCopy by omega); model tied by differential correspondence with the real handler over real sockets; the UDP key search findAccessKeyUDP is TRANSLATED from the Go source into Lean on every run (extract/golean.go) and proved, for every snapshot, to return the first entry whose key opens the datagram and to mark exactly that entry (Proofs/TieMisc.lean)",
         text="Kernel-checked: forwarding implies authentication under a configured key (new client) or the association's key (known client), payload = plaintext after the header, search completeness for any list order, no effects without a key, reply layout salt‖seal(assoc key, true source ‖ body), truncated reads never relayed. The model is compared effect by effect with the real handler on ~2.5k datagram ops per quick run.",
         note="Trusted: Lean kernel; hand model validated differentially; spec-level crypto in the harness; AEAD strength and RNG freshness are contracts (salt freshness is checked empirically pairwise).",
     ),
